@@ -232,6 +232,33 @@ def make_case(ctx, g):
                 if len(vals) != 1:
                     fails.append(Failure("oracle", None, "%s(%s): prov:%s stated twice with one value holds %d values" % (how, kind, l, len(vals)),
                                          {"ops": list(w.ops)}))
+    # one end time, three entry paths: as the endTime argument of activity(), as an attribute pair of new_record, through
+    # set_time -- next to a zone-aware start time. What is stored is what the text says, on every path (a text without offset
+    # is a time without offset, whatever the start time carries)
+    if g.chance(0.15) and scopes:
+        import datetime as _dt
+        c = g.choice(scopes)
+        EXN = Namespace("ex", "http://example.org/")
+        k_ = g.rng.randint(0, 99)
+        start = _dt.datetime(2012, 3, 4, 9, 0, 0, tzinfo=_dt.timezone(_dt.timedelta(minutes=g.choice([60, -300, 330, 0]))))
+        end = _dt.datetime(2012, 3, 4, 17, g.rng.randint(0, 59), 0)
+        if g.chance(0.3):
+            end = end.replace(tzinfo=_dt.timezone(_dt.timedelta(minutes=g.choice([0, 120, -210]))))
+        etext = end.isoformat()
+        h1, e1_ = w.factory(c, "activity", QualifiedName(EXN, "tp1_%d" % k_), [start, etext], [])
+        h2, e2_ = w.new_record(c, "Activity", QualifiedName(EXN, "tp2_%d" % k_), [(PROV["startTime"], start), (PROV["endTime"], etext)])
+        h3, e3_ = w.new_record(c, "Activity", QualifiedName(EXN, "tp3_%d" % k_), [])
+        if h3 is not None:
+            w.set_time(h3, start, etext)
+        flags.add("end-time-text-beside-aware-start")
+        for how_, h_ in (("activity()", h1), ("new_record", h2), ("set_time", h3)):
+            if h_ is None:
+                fails.append(Failure("oracle", None, "%s refused start %s / end %r" % (how_, start.isoformat(), etext), {"ops": list(w.ops)}))
+                continue
+            got_ = list(w.recs[h_].get_attribute(PROV["endTime"]))
+            if len(got_) != 1 or not isinstance(got_[0], _dt.datetime) or got_[0].isoformat() != etext:
+                fails.append(Failure("oracle", None, "%s: end time given as %r beside start %s is stored as %r" % (
+                    how_, etext, start.isoformat(), [x.isoformat() if isinstance(x, _dt.datetime) else x for x in got_]), {"ops": list(w.ops)}))
     # a relation that refers to relations: the generation / usage arguments of a derivation given as the records themselves,
     # as their identifiers, as 'prefix:local' text -- the derivation holds the same two names whichever way
     if g.chance(0.15) and scopes:
